@@ -61,11 +61,12 @@ fn one_execution(fx: &Fixture) -> Result<(Vec<usize>, Vec<u8>), String> {
 
 fn fixture(args: &[String]) -> Fixture {
     let hid = Hid::from_name(&args[0]).expect("hid");
-    let w: u32 = args[1].parse().unwrap();
-    let h: u32 = args[2].parse().unwrap();
+    // args[1] = W list "4" or "4,8" (one entry per level), args[2] = height list
+    let ws: Vec<u32> = args[1].split(',').map(|x| x.parse().unwrap()).collect();
+    let hs: Vec<u32> = args[2].split(',').map(|x| x.parse().unwrap()).collect();
     let seed = hex::decode(&args[3]).unwrap();
     let msg = hex::decode(&args[4]).unwrap();
-    let params = vec![refmodel::p(w, h)];
+    let params: Vec<Param> = ws.iter().zip(hs.iter()).map(|(w, h)| refmodel::p(*w, *h)).collect();
     let m = Model::new(hid);
     let blob = m.make_blob(3, &params, &seed);
     let pk = match lib_api::keygen(hid, &params, &seed, None) {
